@@ -14,22 +14,6 @@ pub mod regex {
 }
 pub mod xcx {
     use vstd::prelude::*;
-    use crate::app::outfmt::model::{AcbWriter, OutputType, Printed};
-    use crate::util::rw::WriteHandle;
-    /// stand-in for TextWriter / CsvWriter (app/outfmt/{text,csv}.rs)
-    pub struct TableWriter { pub log: Ghost<Seq<Printed>>, pub pretty: bool }
-    impl AcbWriter for TableWriter {
-        open spec fn printed(&self) -> Seq<Printed> { self.log@ }
-        #[verifier::external_body]
-        fn print_render_table(&mut self, out_type: OutputType, name: &str, table_model: &crate::portfolio::render::RenderTable) -> (r: Result<(), crate::app::outfmt::model::Error>)
-        { unimplemented!() }
-    }
-    /// `TextWriter::new(out_w)`
-    #[verifier::external_body]
-    pub fn text_writer(w: WriteHandle) -> (r: TableWriter) ensures r.log@.len() == 0, r.pretty { unimplemented!() }
-    /// `CsvWriter::new_to_writer(out_w)`
-    #[verifier::external_body]
-    pub fn csv_writer(w: WriteHandle) -> (r: TableWriter) ensures r.log@.len() == 0, !r.pretty { unimplemented!() }
     /// H: `account.account_str()` ("{account type} {account number}"): a function of the account
     pub uninterp spec fn spec_account_text(a: crate::peripheral::broker::Account) -> Seq<char>;
     #[verifier::external_body]
